@@ -1148,6 +1148,11 @@ mod os {
             block.extend(v.encode_wide());
             block.push(0);
         }
+        if block.is_empty() {
+            // An empty block must still end with two NULs: there is no
+            // last string to contribute the first one.
+            block.push(0);
+        }
         block.push(0);
         block
     }
